@@ -141,6 +141,13 @@ def fixed_corpus():
     for t in ign:
         add(t, vals=("allvariants" if t["k"] == "enum" else None), tags=("ignored",))
         add(T("vec", t=t), vals=("vecallvariants" if t["k"] == "enum" else None), tags=("ignored", "vec"))
+    # explicit-repr enums whose variant fields were added in a later version: padding-free, so the packed decision depends
+    # on the version alone (packed from version 1 on, never at version 0)
+    ev = [reg(E("FixEVer8", [V("A", [F("x0", I("u8")), F("x1", I("u8"), frm=1)]), V("B", [F("id", I("u8")), F("flags", I("u8"), frm=1)], named=True)], "u8")),
+          reg(E("FixEVer16", [V("A", [F("x0", I("u16"), frm=1)]), V("B", [F("x0", I("u16"))])], "u16"))]
+    for t in ev:
+        roots.append({"ty": t, "vals": "allvariants", "tags": {"fixed", "enum", "vervariant"}, "curver": 1})
+        roots.append({"ty": T("vec", t=t), "vals": "vecallvariants", "tags": {"fixed", "enum", "vec", "vervariant"}, "curver": 1})
     return items, roots
 
 
